@@ -48,6 +48,9 @@ type RaceCase struct {
 	// SlowReg: a RegisterInterface call is already in flight when serving starts - its description getter takes 2 ms.
 	// (It started before serving, so it is entitled to complete; it must then have completed before the registry is read.)
 	SlowReg bool `json:"slow_reg,omitempty"`
+	// Refused: every round starts with serving attempts that are refused (an address without protocol, an unknown
+	// protocol) before the real one - whatever bookkeeping a refused attempt does must not weaken the next cycle
+	Refused bool `json:"refused,omitempty"`
 }
 
 // slowRaceIface's description getter blocks until released.
@@ -121,6 +124,11 @@ func runSchedule(c RaceCase) raceStats {
 			time.Sleep(100 * time.Microsecond) // it is inside RegisterInterface now
 		} else {
 			close(regDone)
+		}
+		if c.Refused {
+			svc.Listen(ctx, "verif-no-protocol", timeout)
+			svc.Bind(ctx, "bogus:x")
+			svc.Listen(ctx, "unix:", timeout)
 		}
 		if c.Serve == "dolisten" {
 			if err := svc.Bind(ctx, addr); err != nil {
@@ -614,6 +622,11 @@ func TestC16Pairs(t *testing.T) {
 			}
 		}
 	}
+	// registration attempts during the drain phase (Shutdown issued, a client still connected), after refused serving attempts
+	for v := 0; v < 4; v++ {
+		cases = append(cases, RaceCase{Serve: []string{"listen", "dolisten"}[v%2], Transport: "unix", Rounds: rounds, Reuse: v >= 2, Refused: true,
+			Ops: []RaceOp{{Kind: "client-hold", SustainM: 30}, {Kind: "client", OffsetUS: 400, N: 2}, {Kind: "shutdown", OffsetUS: 600}, {Kind: "register", OffsetUS: 700, SustainM: 20}}})
+	}
 	shard, nshards := Shard()
 	var mine []RaceCase
 	for i, c := range cases {
@@ -626,7 +639,7 @@ func TestC16Pairs(t *testing.T) {
 
 func genC16(t *rapid.T) RaceCase {
 	c := RaceCase{Serve: rapid.SampledFrom([]string{"listen", "dolisten"}).Draw(t, "serve"), Transport: rapid.SampledFrom([]string{"unix", "unix", "tcp"}).Draw(t, "tr"),
-		TimeoutMS: rapid.SampledFrom([]int{0, 0, 20, 200}).Draw(t, "timeout"), Rounds: rapid.IntRange(3, 12).Draw(t, "rounds"), Reuse: rapid.Bool().Draw(t, "reuse"), SlowReg: rapid.IntRange(0, 2).Draw(t, "slowreg") == 0}
+		TimeoutMS: rapid.SampledFrom([]int{0, 0, 20, 200}).Draw(t, "timeout"), Rounds: rapid.IntRange(3, 12).Draw(t, "rounds"), Reuse: rapid.Bool().Draw(t, "reuse"), SlowReg: rapid.IntRange(0, 2).Draw(t, "slowreg") == 0, Refused: rapid.IntRange(0, 2).Draw(t, "refused") == 0}
 	n := rapid.IntRange(2, 5).Draw(t, "nops")
 	for i := 0; i < n; i++ {
 		c.Ops = append(c.Ops, RaceOp{Kind: rapid.SampledFrom(raceKinds).Draw(t, "kind"), OffsetUS: rapid.IntRange(0, 20).Draw(t, "off") * 100,
